@@ -429,6 +429,9 @@ func runC01(p *core.Prog, r *core.Report) {
 					return false
 				}
 				a := s.Call.Common().Args
+				if len(a) != 4 {
+					return false
+				}
 				t, isT := intConstOf(a[3])
 				return isT && t == tTomb && core.ParamIndex(f, a[2]) == 1
 			}, Comps: []core.Comp{{Result: 0, Kind: core.IsTrue}}},
@@ -502,6 +505,9 @@ func runC01(p *core.Prog, r *core.Report) {
 			return "return-const-available", isK && k == stAvail
 		}})
 	}
+	r5 := r.Rule("C01.R5", "the lock override looks at every lock: the lookup ends only at a LIVE lock of the object (an expired lock does not end the search) and a removed lock does not count", 4)
+	tLock, _ := p.ConstInt("github.com/nspcc-dev/neofs-sdk-go/object.TypeLock")
+	lockLookupRule(p, r, r5, tLock, stAvail)
 	r.Analysed["views_classified"] = len(views)
 }
 
